@@ -655,7 +655,9 @@ def check(res, tier, replay=None):
                                       rep + "# reference variant:\n" + ref[0].replay())
                         continue
                 # ---- correspondence with the Lean model
-                model = c.asis if c.asis != "crash" else c.fixed
+                # the code now in /repo looks the index up among the CPUs loaded so far
+                # (fix: f0b14dc): it is the `fixed` model; `asis` is kept for the witness theorems
+                model = c.fixed
                 mv = "ok" if model.startswith("ok ") else ("reject" if model.startswith("error ") else model)
                 bad = mv != v
                 if not bad and v == "ok":
